@@ -14,6 +14,13 @@ From Coq Require Export NArith ZArith List String Bool.
 From RV Require Export Lib.Hex Model.Actor Corr.Common.
 Import ListNotations.
 
+(* a long hex string is written in pieces: coqc's parser overflows its stack on literals beyond
+   ~30 000 characters *)
+Definition cat (l : list string) : string := String.concat EmptyString l.
+(* head, then the two hex digits [f] repeated m times, then tail: how long runs are written *)
+Definition big (h f : string) (m : N) (t : string) : string :=
+  String.append h (N.iter m (String.append f) t).
+
 Definition G : cmd := CP (PGet).
 Definition St (v : string) : cmd := CP (PSet (unhex v)).
 Definition Ic : cmd := CP (PIncrBy 1).
@@ -37,6 +44,7 @@ Definition Ms : cmd := CP (PSMembers).
 Definition Hs (f v : string) : cmd := CP (PHSet (unhex f) (unhex v)).
 Definition Hd (f : string) : cmd := CP (PHDel (unhex f)).
 Definition Ha : cmd := CP (PHGetAll).
+Definition Fl : cmd := CP (PFlush).
 
 (* commands that mention time; all instants and durations in virtual milliseconds *)
 Definition Ad (t : N) : cmd := CAdv t.
